@@ -15,7 +15,7 @@ RULE = ("documents are built by independent serialisers from generated timestamp
         "settings, NOTE blocks, empty cues and reader options (time shift of either sign - also one that moves cues before zero: none may be lost -, "
         "ignore_timing_errors, lang); DFXP clock time with 0-9 fraction digits or :FF frames, "
         "offset times n[.d](h|m|s|ms|f), begin+end and begin+dur, empty <p>, 1-2 divs; SAMI "
-        "syncs in 1-3 languages with ends given by blank P or the next cue, quoted/unquoted, "
+        "syncs in 1-3 languages (also spaced by exactly 4 s, the default duration of a last cue) with ends given by blank P or the next cue, quoted/unquoted, "
         "upper/lower case; MicroDVD with/without {0}{0}fps header (any decimal rate 1-120 with 0-3 fraction digits; frames biased to those falling on whole microseconds). Expected instants come from "
         "exact Fraction arithmetic on the spelling. Exhaustive legs: MicroDVD frames 0..2.16M "
         "at 25 fps and 0..500k at 10 declared rates (incl. 23.98, whose binary float is not the decimal), all SS:FF pairs, offsets k/1000 s for "
@@ -289,6 +289,12 @@ def sami_strategy(tier):
             st.one_of(st.integers(0, 3599999999), st.integers(0, 100000),
                       st.sampled_from([0, 1, 999, 1000, 60000, 3600000, 86400000, 359999999])),
             min_size=ns, max_size=ns))))
+        if draw(st.integers(0, 2)) == 0:
+            # gaps around the four seconds a last cue is given by default
+            t0 = draw(st.sampled_from([0, 1000, 59000, 3599000]))
+            times = [t0]
+            for _ in range(ns - 1):
+                times.append(times[-1] + draw(st.sampled_from([4000, 4000, 4000, 3999, 4001, 1000, 8000, 2000])))
         syncs = []
         for t in times:
             ps = []
@@ -384,6 +390,15 @@ def microdvd_strategy(tier):
                                   min_size=2 * n, max_size=2 * n)))
         cues = [{"a": fr[2 * i], "b": fr[2 * i + 1], "empty": draw(st.integers(0, 7)) == 0}
                 for i in range(n)]
+        if draw(st.integers(0, 3)) == 0:
+            # the first cue(s) on the very first frames - {1}{1}, {1}{2}, {2}{2} ...
+            cues[0]["a"], cues[0]["b"] = draw(st.sampled_from([[1, 1], [1, 1], [1, 2], [2, 2], [0, 1]]))
+            fr0 = cues[0]["b"]
+            for c in cues[1:]:
+                c["a"], c["b"] = max(c["a"], fr0), max(c["b"], fr0)
+        # texts that look like numbers (a frame rate, a counter) are ordinary cue texts
+        for c in cues:
+            c["text"] = draw(st.sampled_from([None, None, None, "3", "25", "23.976", "1984", "0", "1e3", "-1", "{1}"]))
         return {"fmt": "microdvd", "reuse": draw(st.integers(0, 3)) == 0, "fps": fps, "cues": cues,
                 "lang": draw(st.sampled_from([None, "en-US"])),
                 "eol": draw(st.sampled_from(["\n", "\n", "\r\n", "\r"]))}
@@ -402,7 +417,7 @@ def check_microdvd(case, rec):
     for i, c in enumerate(case["cues"]):
         if c["a"] == 0 and c["b"] == 0:
             continue     # {0}{0} is the frame-rate declaration, not a cue
-        lines.append((c["a"], c["b"], "" if c["empty"] else f"cue {i}|second"))
+        lines.append((c["a"], c["b"], "" if c["empty"] else (c.get("text") or f"cue {i}|second")))
         if not c["empty"]:
             exp.append((_mdvd_expected(c["a"], fps or "25"), _mdvd_expected(c["b"], fps or "25")))
     if not exp:
